@@ -180,7 +180,7 @@ def install_add_node(reg):
 
     reg.add(Contract(MG + ':AttackGraph.add_node', {'self': Obj(GRAPH), 'node': Obj(NODE), 'node_id': T('int', opt=True)},
                      requires=requires, ensures=ensures, raises={'ValueError': raise_cond},
-                     modifies=LIST_ARRAYS + DICT_ARRAYS + ('f_id', 'f_next_node_id'), props=('C09', 'C02')))
+                     modifies=LIST_ARRAYS + DICT_ARRAYS + ('f_id', 'f_next_node_id'), props=('C09', 'C02'), param_defaults={'node_id': None}))
 
 
 # ---------------------------------------------------------------------------------------------------
